@@ -1,6 +1,7 @@
 package checks
 
 import (
+	"bufio"
 	"bytes"
 	"database/sql"
 	"database/sql/driver"
@@ -28,14 +29,18 @@ import (
 // stream behaviour under every reader split / writer fault within the deviation bound.
 
 type c03Case struct {
-	Mode    string `json:"mode"` // bytes | sql | reader | writer
-	G       *ref.G `json:"g"`
-	G2      *ref.G `json:"g2,omitempty"`
-	XDR     bool   `json:"xdr"`
-	Ext     bool   `json:"ewkb"`
-	NaN     bool   `json:"nan_mode,omitempty"`
-	Full    bool   `json:"full_menu,omitempty"`
-	Choices []int  `json:"choices,omitempty"`
+	Mode string `json:"mode"` // bytes | sql | reader | writer
+	G    *ref.G `json:"g"`
+	G2   *ref.G `json:"g2,omitempty"`
+	XDR  bool   `json:"xdr"`
+	Ext  bool   `json:"ewkb"`
+	NaN  bool   `json:"nan_mode,omitempty"`
+	Full bool   `json:"full_menu,omitempty"`
+	// RK (reader mode): what kind of io.Reader the decoder is handed: 0 = a plain reader, 1 = a
+	// reader that also has a Seek method which fails (a pipe or socket opened as a file), 2 = a
+	// bufio.Reader with the smallest buffer (16 bytes), 3 = a bufio.Reader with the default buffer
+	RK      int   `json:"reader_kind,omitempty"`
+	Choices []int `json:"choices,omitempty"`
 }
 
 func init() {
@@ -280,7 +285,11 @@ var c03ShortGeom = geom.NewPointFlat(geom.XY, []float64{-123.25, 4567.5})
 var c03OtherGeom = geom.NewLineStringFlat(geom.XY, []float64{-1.5, 2.5, 1e300, -0.0, 77, 88, 99, 111})
 
 func c03Key(cs c03Case) string {
-	return fmt.Sprintf("%s/%s/%s/%s", cs.Mode, fmtName(cs), cs.G.Kind, cs.G.Layout)
+	mode := cs.Mode
+	if cs.RK != 0 {
+		mode += []string{"", "(reader with a failing Seek)", "(bufio.Reader, 16 bytes)", "(bufio.Reader, 4096 bytes)"}[cs.RK]
+	}
+	return fmt.Sprintf("%s/%s/%s/%s", mode, fmtName(cs), cs.G.Kind, cs.G.Layout)
 }
 
 // readerBody is one execution of the reader harness: enc(g1)||enc(g2) behind a FaultReader.
@@ -296,12 +305,27 @@ func newReaderFixture(cs c03Case) *readerFixture {
 	return &readerFixture{stream: append(append([]byte{}, e1...), e2...), n1: len(e1), x1: c03Expect(cs.G, cs), x2: c03Expect(cs.G2, cs)}
 }
 
+// seekFailReader is a reader with a Seek method that always fails, as an *os.File on a pipe does.
+type seekFailReader struct{ io.Reader }
+
+func (seekFailReader) Seek(int64, int) (int64, error) { return 0, errors.New("seek: illegal seek") }
+
 func readerBody(c *engine.Ctx, cs c03Case, fx *readerFixture, m *engine.MC) {
 	g := cs.G
 	stream, x1, x2 := fx.stream, fx.x1, fx.x2
 	e1 := stream[:fx.n1]
 	c.Count("evaluations", 1)
 	r := &engine.FaultReader{Data: stream, M: m, Full: cs.Full, FullUntil: fx.n1}
+	var rd io.Reader = r
+	consumed := func() int { return r.Pos }
+	switch cs.RK {
+	case 1:
+		rd = seekFailReader{r}
+	case 2, 3:
+		br := bufio.NewReaderSize(r, map[int]int{2: 16, 3: 4096}[cs.RK])
+		rd = br
+		consumed = func() int { return r.Pos - br.Buffered() }
+	}
 	bad := func(what, desc string) {
 		cc := cs
 		cc.Choices = m.Choices()
@@ -311,17 +335,17 @@ func readerBody(c *engine.Ctx, cs c03Case, fx *readerFixture, m *engine.MC) {
 	var err1, err2, err3 error
 	pos1, pos2 := -1, -1
 	if p, stack := engine.Guard(func() {
-		d1, err1 = c03Read(r, cs)
-		pos1 = r.Pos
+		d1, err1 = c03Read(rd, cs)
+		pos1 = consumed()
 		if err1 != nil {
 			return
 		}
-		d2, err2 = c03Read(r, cs)
-		pos2 = r.Pos
+		d2, err2 = c03Read(rd, cs)
+		pos2 = consumed()
 		if err2 != nil {
 			return
 		}
-		_, err3 = c03Read(r, cs)
+		_, err3 = c03Read(rd, cs)
 	}); p != nil {
 		bad("panic", fmt.Sprintf("panic %v\n%s", p, firstLines(stack, 12)))
 		return
@@ -651,6 +675,14 @@ func c03Run(c *engine.Ctx) {
 				// and the other way round: this geometry is the LAST one of the stream, so its final
 				// bytes (a count of zero, a coordinate, a nested member) may arrive together with io.EOF
 				runReader(c, c03Case{Mode: "reader", G: follower, G2: g, XDR: xdr, Ext: f.Ext, NaN: f.NaN}, bound, &capped)
+				// the same stream behind other kinds of reader: one that has a (failing) Seek method,
+				// and bufio.Readers with the smallest and the default buffer
+				for rk := 1; rk <= 3; rk++ {
+					crk := cs
+					crk.RK = rk
+					runReader(c, crk, bound, &capped)
+					c.Count("other_reader_kinds", 1)
+				}
 				if len(ref.EncodeWKB(g, xdr, f.Ext)) <= 22 {
 					cs.Full = true
 					cs.G2 = ref.NewCollection(geom.XY) // 9-byte follower keeps the full enumeration small
